@@ -97,6 +97,8 @@ def run(run):
                   dict(maxmsgs=2, pool=(1, 2, 3, 4, 5), seps=(1, 2, 3) if thorough else (1, 2 + r % 2), faults=ALLF if thorough else faults_q, cuts=True)),
                  ('n<=3 uniform separators', dict(maxmsgs=3, pool=(1, 3, 4) if thorough else (1, 4), seps=(1, 3) if thorough else (3,),
                                                  faults=ALLF if thorough else ('stop', 'undef_seq', 'shrink4', 'grow1'), uniform=True))]
+        # the same scanner with expected values not enforced (ignore_value_expectation): only the stop signature is waived
+        plans.append(('n<=2, values not enforced', dict(maxmsgs=2, pool=(1, 4), seps=(1,), faults=('stop', 'undef_elem', 'shrink4', 'grow3'), modes=stream.IVE_MODES)))
         allcases = []
         for i, (label, kw) in enumerate(plans):
             res = stream.tlc_run(wd, 'MC_c12_%d' % i, **kw)
